@@ -265,7 +265,7 @@ fn run_sit(i: u64, s: &Sit) -> Value {
         m.insert(k.into(), json!(if rng == 0 { -1 } else { v.unwrap_or(-1) as i64 }));
     }
 
-    let res = std::panic::catch_unwind(|| -> Result<(Value, Value, Value, &'static str), String> {
+    let res = crate::unwind_safe(|| -> Result<(Value, Value, Value, &'static str), String> {
         let (options, _setline) = options_with_overhead(s.ovh)?;
         let args = match parser::parse(&go)? {
             UciCommand::Go(a) => a,
